@@ -152,3 +152,200 @@ Proof.
   intros cf st e rg H Hd. apply allinv_reach in H. apply scan_ok_sound.
   eapply scinv_stream; eauto. apply H. apply (a_reg st H).
 Qed.
+
+(* ---------------------------------------------------------------- explicit statements *)
+
+From Nexus Require Import Order.InvRepaired.
+
+Lemma sub_open_iff : forall sb m, sub_mark sb m = MOpen <-> m = SSubscribed sb.
+Proof.
+  intros sb m; destruct m; simpl; try (split; [discriminate|intros H; discriminate]);
+  destruct (N.eqb_spec sb0 sb); split; intros H; try discriminate; try congruence.
+Qed.
+
+Lemma reg_open_iff : forall rg m, reg_mark rg m = MOpen <-> m = SRegistered rg.
+Proof.
+  intros rg m; destruct m; simpl; try (split; [discriminate|intros H; discriminate]);
+  try destruct first; try (split; [discriminate|intros H; discriminate]);
+  destruct (N.eqb_spec rg0 rg); split; intros H; try discriminate; try congruence.
+Qed.
+
+Lemma no_dropped_sub : forall st r sb,
+  ~ In (SSubscribed sb, false) (att st r) ->
+  forall m, In (m, false) (att st r) -> sub_mark sb m <> MOpen.
+Proof. intros st r sb H m Hin E. apply sub_open_iff in E. subst. auto. Qed.
+
+Lemma no_dropped_reg : forall st e rg,
+  ~ In (SRegistered rg, false) (att st e) ->
+  forall m, In (m, false) (att st e) -> reg_mark rg m <> MOpen.
+Proof. intros st e rg H m Hin E. apply reg_open_iff in E. subst. auto. Qed.
+
+Theorem event_order_x : forall cf st r pre mid post sb p t y1 y2,
+  reach cf st ->
+  stream st r = pre ++ SEvent sb (Some p) t y1 :: mid ++ SEvent sb (Some p) t y2 :: post ->
+  y1 < y2.
+Proof.
+  intros cf st r pre mid post sb p t y1 y2 H E.
+  eapply (event_order_all cf st r H); eauto; reflexivity.
+Qed.
+
+Theorem call_order_x : forall cf st e pre mid post c rg1 inv1 cid1 y1 f1 rg2 inv2 cid2 y2 f2,
+  reach cf st ->
+  stream st e = pre ++ SInvocation rg1 inv1 c cid1 y1 f1 :: mid
+                    ++ SInvocation rg2 inv2 c cid2 y2 f2 :: post ->
+  y1 < y2.
+Proof.
+  intros cf st e pre mid post c rg1 inv1 cid1 y1 f1 rg2 inv2 cid2 y2 f2 H E.
+  eapply (call_order_all cf st e H); eauto; reflexivity.
+Qed.
+
+Theorem progress_order_partial_x : forall cf st c,
+  reach cf st ->
+  (forall pre mid post cid y1 e1 p1 c1 y2 e2 p2 c2,
+      stream st c = pre ++ SResult cid y1 e1 p1 c1 :: mid ++ SResult cid y2 e2 p2 c2 :: post ->
+      y1 < y2) /\
+  (forall pre f post m cid,
+      stream st c = pre ++ f :: post -> closing cid f = true -> In m post ->
+      is_reply cid m = false).
+Proof.
+  intros cf st c H. destruct (progress_order_closing cf st c H) as [A B]. split.
+  - intros. eapply A; eauto; reflexivity.
+  - intros. eapply B; eauto.
+Qed.
+
+Theorem ecinv_reach : forall cf st, repaired cf = true -> reach cf st -> ecinv st.
+Proof.
+  intros cf st Hr [tr H].
+  assert (G : base st /\ wf_hst st /\ ecinv st).
+  { apply (run_invariant (fun s => base s /\ wf_hst s /\ ecinv s) cf) with (tr := tr) (st := init); auto.
+    - intros s l s' [A [B C]] Hs. destruct (base_step _ _ _ _ A B Hs). split; [|split]; auto.
+      apply (ecinv_step cf s l s'); auto.
+    - split; [|split]; auto using base_init, wf_hst_init, ecinv_init. }
+  apply G.
+Qed.
+
+Theorem progress_order_x : forall cf st c,
+  repaired cf = true -> reach cf st ->
+  (forall pre mid post cid y1 e1 p1 c1 y2 e2 p2 c2,
+      stream st c = pre ++ SResult cid y1 e1 p1 c1 :: mid ++ SResult cid y2 e2 p2 c2 :: post ->
+      y1 < y2) /\
+  (forall pre f post m cid,
+      stream st c = pre ++ f :: post -> final_reply cid f = true -> In m post ->
+      is_reply cid m = false).
+Proof.
+  intros cf st c Hrep H. destruct (progress_order_partial_x cf st c H) as [A B]. split; auto.
+  intros pre f post m cid E Hf Hin. eapply B; eauto.
+  pose proof (ecinv_reach cf st Hrep H) as Ec. apply allinv_reach in H.
+  assert (Hfin : In f (map fst (att st c))).
+  { rewrite stream_accepted in E by apply H.
+    assert (Hx : In f (accepted (att st c))) by (rewrite E; apply in_or_app; right; left; auto).
+    apply in_accepted in Hx. apply in_map_iff. exists (f, true); auto. }
+  pose proof (ec_att st Ec c f Hfin) as Ho.
+  destruct f; simpl in *; try discriminate; auto. destruct closes; auto; discriminate.
+Qed.
+
+Theorem subscribed_before_event_x : forall cf st r sb pub t y pre post,
+  reach cf st -> ~ In (SSubscribed sb, false) (att st r) ->
+  stream st r = pre ++ SEvent sb pub t y :: post -> In (SSubscribed sb) pre.
+Proof.
+  intros cf st r sb pub t y pre post H Hd E.
+  destruct (sub_claims_stream cf st r sb H (no_dropped_sub st r sb Hd)) as [A _].
+  destruct (A pre _ post E) as [o [Hin Ho]]. { simpl. rewrite N.eqb_refl; reflexivity. }
+  apply sub_open_iff in Ho; subst; auto.
+Qed.
+
+Theorem no_event_after_unsubscribed_x : forall cf st r sb pub t y pre mid post,
+  reach cf st -> ~ In (SSubscribed sb, false) (att st r) ->
+  stream st r = pre ++ SUnsubscribed sb :: mid ++ SEvent sb pub t y :: post ->
+  In (SSubscribed sb) mid.
+Proof.
+  intros cf st r sb pub t y pre mid post H Hd E.
+  destruct (sub_claims_stream cf st r sb H (no_dropped_sub st r sb Hd)) as [_ B].
+  destruct (B pre _ mid _ post E) as [o [Hin Ho]]; try (simpl; rewrite N.eqb_refl; reflexivity).
+  apply sub_open_iff in Ho; subst; auto.
+Qed.
+
+Theorem registered_before_invocation_x : forall cf st e rg inv c cid y pre post,
+  reach cf st -> ~ In (SRegistered rg, false) (att st e) ->
+  stream st e = pre ++ SInvocation rg inv c cid y true :: post -> In (SRegistered rg) pre.
+Proof.
+  intros cf st e rg inv c cid y pre post H Hd E.
+  destruct (reg_claims_stream cf st e rg H (no_dropped_reg st e rg Hd)) as [A _].
+  destruct (A pre _ post E) as [o [Hin Ho]]. { simpl. rewrite N.eqb_refl; reflexivity. }
+  apply reg_open_iff in Ho; subst; auto.
+Qed.
+
+Theorem no_invocation_after_unregistered_x : forall cf st e rg inv c cid y pre mid post,
+  reach cf st -> ~ In (SRegistered rg, false) (att st e) ->
+  stream st e = pre ++ SUnregistered rg :: mid ++ SInvocation rg inv c cid y true :: post ->
+  In (SRegistered rg) mid.
+Proof.
+  intros cf st e rg inv c cid y pre mid post H Hd E.
+  destruct (reg_claims_stream cf st e rg H (no_dropped_reg st e rg Hd)) as [_ B].
+  destruct (B pre _ mid _ post E) as [o [Hin Ho]]; try (simpl; rewrite N.eqb_refl; reflexivity).
+  apply reg_open_iff in Ho; subst; auto.
+Qed.
+
+(** the same four on the attempt log, without side condition *)
+Theorem sub_reg_attempts_x : forall cf st r k,
+  reach cf st ->
+  (forall pub t y pre post, map fst (att st r) = pre ++ SEvent k pub t y :: post ->
+                            In (SSubscribed k) pre) /\
+  (forall pub t y pre mid post,
+      map fst (att st r) = pre ++ SUnsubscribed k :: mid ++ SEvent k pub t y :: post ->
+      In (SSubscribed k) mid) /\
+  (forall inv c cid y pre post,
+      map fst (att st r) = pre ++ SInvocation k inv c cid y true :: post ->
+      In (SRegistered k) pre) /\
+  (forall inv c cid y pre mid post,
+      map fst (att st r) = pre ++ SUnregistered k :: mid ++ SInvocation k inv c cid y true :: post ->
+      In (SRegistered k) mid).
+Proof.
+  intros cf st r k H.
+  destruct (sub_claims_attempts cf st r k H) as [A B].
+  destruct (reg_claims_attempts cf st r k H) as [C D].
+  repeat split.
+  - intros pub t y pre post E. destruct (A pre _ post E) as [o [Hin Ho]].
+    { simpl. rewrite N.eqb_refl; reflexivity. } apply sub_open_iff in Ho; subst; auto.
+  - intros pub t y pre mid post E.
+    destruct (B pre _ mid _ post E) as [o [Hin Ho]]; try (simpl; rewrite N.eqb_refl; reflexivity).
+    apply sub_open_iff in Ho; subst; auto.
+  - intros inv c cid y pre post E. destruct (C pre _ post E) as [o [Hin Ho]].
+    { simpl. rewrite N.eqb_refl; reflexivity. } apply reg_open_iff in Ho; subst; auto.
+  - intros inv c cid y pre mid post E.
+    destruct (D pre _ mid _ post E) as [o [Hin Ho]]; try (simpl; rewrite N.eqb_refl; reflexivity).
+    apply reg_open_iff in Ho; subst; auto.
+Qed.
+
+(** ghost sequence numbers are the order in which a session sends *)
+Theorem seq_is_send_order : forall cf st s,
+  reach cf st -> StronglySorted N.lt (map fst (inbox st s)).
+Proof.
+  intros cf st s H. apply allinv_reach in H. pose proof (b_pipe st (a_base st H) s) as P.
+  unfold pipeline in P. destruct (cur (hst st s)) as [|a l] eqn:E; auto.
+  assert (l = []) by (destruct (hst st s); simpl in E; inv E; auto). subst. simpl in P.
+  inversion P; auto.
+Qed.
+
+(* ---------------------------------------------------------------- witnesses *)
+
+From Nexus Require Import Order.Examples.
+
+Lemma obs_reach : forall cf tr r l, obs cf tr r = Some l -> exists st, reach cf st /\ stream st r = l.
+Proof.
+  intros cf tr r l H. unfold obs in H. destruct (run cf init tr) as [st|] eqn:E; [|discriminate].
+  inv H. exists st; split; auto. exists tr; auto.
+Qed.
+
+(** The faithful model (repaired = false) violates the full-strength claim:
+    a progressive RESULT reaches the caller after ERROR(CALL). *)
+Theorem progress_order_refuted_x :
+  exists st c pre cid cl post y e p cl2,
+    reach cfg8 st /\ stream st c = pre ++ SErrorCall cid cl :: post /\
+    In (SResult cid y e p cl2) post.
+Proof.
+  destruct (obs_reach cfg8 tr_refused 2 [SErrorCall 1 false; SResult 1 4 1 true false])
+    as [st [Hr Hs]]; [vm_compute; reflexivity|].
+  exists st, 2, [], 1, false, [SResult 1 4 1 true false], 4, 1, true, false.
+  repeat split; auto. left; reflexivity.
+Qed.
